@@ -9,6 +9,9 @@ from pyir import TranslationError, get_function, src_of
 
 VARS = ("psi2D", "psi1D", "fpol1D", "psi_axis_gfile", "psi_bdry_gfile")
 OPTS = ("reverse_current", "psi_divide_twopi", "reverse_Bt")
+ARRAYS = ("psi2D", "psi1D", "fpol1D")      # numpy arrays of the caller: an augmented assignment modifies the caller's object
+INPLACE = []
+OUTSIDE = []
 
 
 def nodoc(body):
@@ -18,6 +21,18 @@ def nodoc(body):
 def translate(repo):
     fn = get_function(os.path.join(repo, "hypnotoad/cases/tokamak.py"), "TokamakEquilibrium.__init__")
     body = nodoc(fn.body)
+    INPLACE.clear()
+    OUTSIDE.clear()
+    # any other in-place operation on a parameter array anywhere in __init__
+    for n in ast.walk(fn):
+        if isinstance(n, ast.AugAssign) and src_of(n.target).split("[")[0] in ("R1D", "Z1D", "pressure", "wall"):
+            INPLACE.append("other:" + src_of(n.target))
+        if isinstance(n, ast.AugAssign) and src_of(n.target).split("[")[0] in ARRAYS:
+            OUTSIDE.append(n)
+        if isinstance(n, ast.Assign) and any(isinstance(t, ast.Subscript) and src_of(t.value) in ARRAYS + ("R1D", "Z1D", "pressure", "wall") for t in n.targets):
+            INPLACE.append("element:" + src_of(n.targets[0]))
+        if isinstance(n, ast.Call) and src_of(n.func) in ("wall.reverse", "wall.sort", "wall.append"):
+            INPLACE.append("call:" + src_of(n.func))
     blocks = []
     seen_use = False
     for s in body:
@@ -39,6 +54,20 @@ def translate(repo):
                     if not (isinstance(inner, ast.AugAssign) and g == f"{src_of(inner.target)} is not None"):
                         raise TranslationError(f"{opt}: unexpected guarded statement {src_of(st)[:60]}")
                     st = inner
+                inplace = True
+                if isinstance(st, ast.Assign) and len(st.targets) == 1 and src_of(st.targets[0]) in VARS:
+                    # rebinding form: x = x * c, x = x / c, x = -x, x = c * x  (does not touch the caller's object)
+                    tname = src_of(st.targets[0])
+                    v = st.value
+                    if isinstance(v, ast.UnaryOp) and isinstance(v.op, ast.USub) and src_of(v.operand) == tname:
+                        st = ast.AugAssign(target=st.targets[0], op=ast.Mult(), value=ast.Constant(-1.0))
+                    elif isinstance(v, ast.BinOp) and isinstance(v.op, (ast.Mult, ast.Div)) and src_of(v.left) == tname:
+                        st = ast.AugAssign(target=st.targets[0], op=v.op, value=v.right)
+                    elif isinstance(v, ast.BinOp) and isinstance(v.op, ast.Mult) and src_of(v.right) == tname:
+                        st = ast.AugAssign(target=st.targets[0], op=v.op, value=v.left)
+                    else:
+                        raise TranslationError(f"{opt}: unexpected assignment {src_of(st)[:60]}")
+                    inplace = False
                 if not isinstance(st, ast.AugAssign) or src_of(st.target) not in VARS:
                     raise TranslationError(f"{opt}: unexpected statement {src_of(st)[:60]}")
                 op = {ast.Mult: "*", ast.Div: "/"}.get(type(st.op))
@@ -46,6 +75,8 @@ def translate(repo):
                 if op is None or (v not in consts and v not in ("-1.0", "-1")):
                     raise TranslationError(f"{opt}: unexpected update {src_of(st)}")
                 steps.append((src_of(st.target), op, consts.get(v, "(-1)")))
+                if inplace and src_of(st.target) in ARRAYS:
+                    INPLACE.append(f"{opt}:{src_of(st.target)}")
             if s.orelse:
                 raise TranslationError(f"{opt}: unexpected else branch")
             blocks.append((opt, steps))
@@ -54,6 +85,13 @@ def translate(repo):
             names = {n.id for n in ast.walk(s) if isinstance(n, ast.Name)}
             if names & set(VARS):
                 seen_use = True
+    in_blocks = set()
+    for s2 in body:
+        if isinstance(s2, ast.If) and src_of(s2.test) in ("self.user_options." + o for o in OPTS):
+            in_blocks |= {id(x) for x in ast.walk(s2)}
+    for n2 in OUTSIDE:
+        if id(n2) not in in_blocks:
+            INPLACE.append(f"outside-option-blocks:{src_of(n2)}")
     if [b[0] for b in blocks] != list(OPTS):
         raise TranslationError(f"option blocks found: {[b[0] for b in blocks]}")
     # gfile consistency checks
@@ -81,7 +119,9 @@ def emit(repo):
           "Definition T_preprocess (rc dt rb : bool) (x : eqin) : eqin :=",
           "  let x1 := if rc then T_reverse_current x else x in", "  let x2 := if dt then T_psi_divide_twopi x1 else x1 in", "  if rb then T_reverse_Bt x2 else x2.",
           "(* what the psi_axis / psi_bdry consistency checks compare the O-/X-point value with *)",
-          "Definition T_gfile_reference (rc : bool) (gfile_value : R) : R := (if rc then -1 else 1) * gfile_value.", ""]
+          "Definition T_gfile_reference (rc : bool) (gfile_value : R) : R := (if rc then -1 else 1) * gfile_value.",
+          "(* does the constructor modify the caller's arrays (augmented assignment on a numpy array parameter)? *)",
+          f"Definition T_inplace_on_caller_arrays : bool := {'true' if INPLACE else 'false'}.  (* {', '.join(INPLACE) or 'none'} *)", ""]
     return "\n".join(L), blocks
 
 
